@@ -17,6 +17,7 @@ from .c12 import _input_obs, zone_of
 
 ID = "C16"
 BUDGET = {"quick": 40.0, "thorough": 600.0}
+RUNS = {"quick": 9000}
 UNITS = ["month", "quarter", "year"]
 
 
